@@ -86,7 +86,9 @@ class ModuleProxy(object):
 # array-building calls made from eqsig/single.py: the sites where an allocation can fail
 NP_SITES = ("array", "zeros", "zeros_like", "ones", "polyfit", "linspace", "logspace", "insert", "diff", "arange")
 NP_FFT_SITES = ("fft",)
-NP_EXTRA_SITES = ("cumsum", "concatenate", "pad", "interp", "where", "take", "ediff1d", "tril", "triu", "outer", "ones_like")
+NP_EXTRA_SITES = ("cumsum", "concatenate", "pad", "interp", "where", "take", "ediff1d", "tril", "triu", "outer", "ones_like",
+                  # array-valued ufuncs and reductions along an axis allocate a full-size result as well
+                  "sum", "log10", "sin", "cos", "exp", "sqrt", "abs", "flipud", "flip", "conj", "put", "delete", "sign")
 DH_SITES = ("pseudo_response_spectra", "response_series")
 SD_SITES = ("calc_velo_and_disp_from_accel_arr",)
 IM_SITES = ("calc_peak",)
